@@ -41,6 +41,7 @@ type step struct {
 }
 
 type kase struct {
+	Journal   bool   `json:"journal,omitempty"`
 	MaxTables int    `json:"maxTables"`
 	Steps     []step `json:"steps"`
 }
@@ -57,11 +58,12 @@ type world struct {
 	crashN int
 
 	// trace conformance with the Lean ManFs model (nil when the case uses the store's background conjoin)
-	m      *hx.Model
-	ids    map[hash.Hash]int // table names, lock hashes, roots, gc generations → small ids (0 = empty hash)
-	tables map[string]bool   // table files the model knows about (by file name)
-	bad    bool              // a disagreement was already reported for this case
-	inHook bool
+	m       *hx.Model
+	ids     map[hash.Hash]int // table names, lock hashes, roots, gc generations → small ids (0 = empty hash)
+	tables  map[string]bool   // table files the model knows about (by file name)
+	bad     bool              // a disagreement was already reported for this case
+	inHook  bool
+	journal bool // journaling store (single exclusive handle; oracle only)
 }
 
 func (w *world) id(h hash.Hash) int {
@@ -375,6 +377,12 @@ func (w *world) crashCopy(when string, allowed ...hash.Hash) {
 		return
 	}
 	root, ok := w.checkDir(dst, "crash-image "+when)
+	if ok && w.journal {
+		// the root of a journaling store lives in the journal, not in the manifest file: only the manifest predicate applies
+		os.RemoveAll(dst)
+		w.e.Rep.Hit("crash-image")
+		return
+	}
 	if ok {
 		good := false
 		for _, a := range allowed {
@@ -451,7 +459,19 @@ func (w *world) do1(s *step) string {
 		if st != nil {
 			st.Close()
 		}
-		n, err := nbs.VerifManNewLocalStore(w.ctx, constants.FormatDoltString, w.dir, 1<<12, w.c.MaxTables, nbs.NewUnlimitedMemQuotaProvider())
+		var n *nbs.NomsBlockStore
+		var err error
+		if w.journal {
+			n, err = nbs.NewLocalJournalingStore(w.ctx, constants.FormatDoltString, w.dir, nbs.NewUnlimitedMemQuotaProvider(), false, nil)
+			if err == nil {
+				if _, rerr := n.Root(w.ctx); rerr != nil {
+					n.Close()
+					err = rerr
+				}
+			}
+		} else {
+			n, err = nbs.VerifManNewLocalStore(w.ctx, constants.FormatDoltString, w.dir, 1<<12, w.c.MaxTables, nbs.NewUnlimitedMemQuotaProvider())
+		}
 		if err != nil {
 			w.hs[s.H%3] = nil
 			return "err " + err.Error()
@@ -527,21 +547,72 @@ func (w *world) do1(s *step) string {
 		if err := st.Rebase(w.ctx); err != nil {
 			return "err rebase " + err.Error()
 		}
-		u := &updTrace{w: w, actor: s.H % 3, firstLL: nbs.VerifManUpstream(st).Lock}
+		err := w.conjoinTraced(st, s.H, nil)
+		if err != nil {
+			return "err " + firstLine(err)
+		}
+		return "ok"
+	case "upload":
+		// a pushed table file: WriteTableFile, the pending handle closed (as remotesrv does), then AddTableFilesToManifest
+		if st == nil {
+			return "closed"
+		}
+		c := w.mkChunk()
+		name, data, _, err := nbs.WriteChunks([]chunks.Chunk{c})
+		if err != nil {
+			return "err " + err.Error()
+		}
+		cl, err := st.WriteTableFile(w.ctx, name, 0, 1, nil, func() (io.ReadCloser, uint64, error) {
+			return io.NopCloser(strings.NewReader(string(data))), uint64(len(data)), nil
+		})
+		if err != nil {
+			return "err " + firstLine(err)
+		}
+		cl.Close()
+		u := &updTrace{w: w, actor: s.H % 3, firstLL: w.diskLock()}
 		nbs.VerifManSetHooks(st, nil, func() error { u.hook(); return nil })
-		_, err := st.ConjoinTableFiles(w.ctx, nil)
+		err = st.AddTableFilesToManifest(w.ctx, map[string]int{name: 1}, noRefs)
 		nbs.VerifManSetHooks(st, nil, nil)
 		u.finish()
-		// the conjoin's cleanup unlinks the conjoinees without the manifest LOCK: the model's cleaner actor
-		if gone := w.removed(); len(gone) > 0 && w.m != nil {
-			a := 20 + s.H%3
-			w.ask(fmt.Sprintf("cspawn %d %s", a, hx.NatList(gone)), "ok", "conjoin cleanup")
-			for _, n := range gone {
-				w.ask(fmt.Sprintf("cunlink %d %d", a, n), "ok safe", "conjoin cleanup unlinks a conjoinee (no LOCK): must be enabled and CSafe")
-				w.e.Rep.Hit("conform:cleanup-unlink")
-			}
-			w.ask(fmt.Sprintf("retire %d", a), "ok", "")
+		if err != nil {
+			return "err " + firstLine(err)
 		}
+		return "ok"
+	case "readd":
+		// AddTableFilesToManifest of a table file the manifest already names, parked inside its reference check (the getAddrs
+		// callback runs with no store lock held) while the same store conjoins that very file away: the conjoin's cleanup must
+		// leave the file alone (the add holds it), and the add then publishes it again.
+		if st == nil {
+			return "closed"
+		}
+		if err := st.Rebase(w.ctx); err != nil {
+			return "err rebase " + err.Error()
+		}
+		up := nbs.VerifManUpstream(st)
+		tabs := tableSpecs(up.Specs)
+		if up.Root.IsEmpty() || len(tabs) < 2 {
+			return "skipped"
+		}
+		x := tabs[s.N%len(tabs)]
+		u := &updTrace{w: w, actor: s.H % 3, firstLL: up.Lock}
+		nested := false
+		var cerr error
+		cb := func(c chunks.Chunk) chunks.InsertAddrsCb {
+			if !nested {
+				nested = true
+				nbs.VerifManSetHooks(st, nil, nil)
+				cerr = w.conjoinTraced(st, s.H, nil)
+				w.checkDir(w.dir, "inside-readd after-nested-conjoin")
+				u.firstLL = w.diskLock()
+				nbs.VerifManSetHooks(st, nil, func() error { u.hook(); return nil })
+			}
+			return noRefs(c)
+		}
+		nbs.VerifManSetHooks(st, nil, func() error { u.hook(); return nil })
+		err := st.AddTableFilesToManifest(w.ctx, map[string]int{x.Name.String(): int(x.Count)}, cb)
+		nbs.VerifManSetHooks(st, nil, nil)
+		u.finish()
+		w.e.Rep.Hit(fmt.Sprintf("readd:nested-conjoin=%v", nested && cerr == nil))
 		if err != nil {
 			return "err " + firstLine(err)
 		}
@@ -651,6 +722,49 @@ func (w *world) do1(s *step) string {
 	return "bad-step"
 }
 
+const journalName = "vvvvvvvvvvvvvvvvvvvvvvvvvvvvvvvv"
+
+// tableSpecs drops the chunk journal's own spec
+func tableSpecs(specs []nbs.VerifManSpec) []nbs.VerifManSpec {
+	var out []nbs.VerifManSpec
+	for _, sp := range specs {
+		if sp.Name.String() != journalName {
+			out = append(out, sp)
+		}
+	}
+	return out
+}
+
+// conjoinTraced: ConjoinTableFiles on every table file of the handle's view (or ids), with the model's writer following
+// its Update(s) and the model's cleaner its unlocked unlinks
+func (w *world) conjoinTraced(st *nbs.NomsBlockStore, h int, ids []hash.Hash) error {
+	up := nbs.VerifManUpstream(st)
+	if ids == nil && w.journal {
+		for _, sp := range tableSpecs(up.Specs) {
+			ids = append(ids, sp.Name)
+		}
+		if len(ids) < 2 {
+			return errors.New("fewer than two table files")
+		}
+	}
+	u := &updTrace{w: w, actor: h % 3, firstLL: up.Lock}
+	nbs.VerifManSetHooks(st, nil, func() error { u.hook(); return nil })
+	_, err := st.ConjoinTableFiles(w.ctx, ids)
+	nbs.VerifManSetHooks(st, nil, nil)
+	u.finish()
+	// the conjoin's cleanup unlinks the conjoinees without the manifest LOCK: the model's cleaner actor
+	if gone := w.removed(); len(gone) > 0 && w.m != nil {
+		a := 20 + h%3
+		w.ask(fmt.Sprintf("cspawn %d %s", a, hx.NatList(gone)), "ok", "conjoin cleanup")
+		for _, n := range gone {
+			w.ask(fmt.Sprintf("cunlink %d %d", a, n), "ok safe", "conjoin cleanup unlinks a conjoinee (no LOCK): must be enabled and CSafe")
+			w.e.Rep.Hit("conform:cleanup-unlink")
+		}
+		w.ask(fmt.Sprintf("retire %d", a), "ok", "")
+	}
+	return err
+}
+
 func firstLine(err error) string {
 	s := err.Error()
 	if i := strings.IndexByte(s, '\n'); i >= 0 {
@@ -678,7 +792,32 @@ func genNested(r *hx.Rng, outer int) []step {
 	return in
 }
 
+// genJournal: one journaling store (exclusive writer): commits go to the journal, table files arrive as uploads
+func genJournal(r *hx.Rng) *kase {
+	c := &kase{Journal: true, MaxTables: 256}
+	c.Steps = append(c.Steps, step{Kind: "open", H: 0}, step{Kind: "write", H: 0, N: 1}, step{Kind: "upload", H: 0}, step{Kind: "upload", H: 0})
+	n := r.Range(5, 14)
+	for i := 0; i < n; i++ {
+		switch x := r.Intn(100); {
+		case x < 30:
+			c.Steps = append(c.Steps, step{Kind: "upload", H: 0})
+		case x < 45:
+			c.Steps = append(c.Steps, step{Kind: "write", H: 0, N: r.Intn(3)})
+		case x < 60:
+			c.Steps = append(c.Steps, step{Kind: "conjoin", H: 0})
+		case x < 90:
+			c.Steps = append(c.Steps, step{Kind: "readd", H: 0, N: r.Intn(8)})
+		default:
+			c.Steps = append(c.Steps, step{Kind: "open", H: 0})
+		}
+	}
+	return c
+}
+
 func gen(r *hx.Rng) *kase {
+	if r.Chance(1, 4) {
+		return genJournal(r)
+	}
 	c := &kase{MaxTables: hx.Pick(r, []int{4, 256, 256, 256})}
 	c.Steps = append(c.Steps, step{Kind: "open", H: 0}, step{Kind: "open", H: 1})
 	n := r.Range(6, 22)
@@ -694,8 +833,10 @@ func gen(r *hx.Rng) *kase {
 				s.In = genNested(r, h)
 			}
 			c.Steps = append(c.Steps, s)
-		case x < 62:
+		case x < 58:
 			c.Steps = append(c.Steps, step{Kind: "conjoin", H: h})
+		case x < 62:
+			c.Steps = append(c.Steps, step{Kind: "readd", H: h, N: r.Intn(8)})
 		case x < 70:
 			c.Steps = append(c.Steps, step{Kind: "orphan", H: h})
 		case x < 88:
@@ -717,12 +858,15 @@ func run(e *hx.Env, c *kase, n int) {
 	os.RemoveAll(dir)
 	os.MkdirAll(dir, 0o755)
 	w := &world{e: e, ctx: context.Background(), dir: dir, c: c, roots: map[hash.Hash]bool{}, ids: map[hash.Hash]int{}, tables: map[string]bool{}}
-	if theModel != nil && c.MaxTables >= 256 {
+	w.journal = c.Journal
+	if c.Journal {
+		e.Rep.Hit("case:journal-store(oracle only)")
+	} else if theModel != nil && c.MaxTables >= 256 {
 		// with the background conjoin goroutine off, the step trace of the run is deterministic: replay it on the model
 		w.m = theModel
 		w.m.Ask("reset")
 		e.Rep.Hit("case:trace-conformance")
-	} else {
+	} else if !c.Journal {
 		e.Rep.Hit("case:oracle-only(background conjoin)")
 	}
 	nt := false
